@@ -35,15 +35,15 @@ type Rec struct {
 // All methods may be called from any task; in race builds the bookkeeping is
 // hidden from the race detector and kept free of maps.
 type Hist struct {
-	Sim     *sched.Sim
-	Off     bool // race variant: record nothing
-	mu      sync.Mutex
-	Recs    []Rec
-	Viol    []*Violation
-	occ     []occEntry
-	MaxOcc  int // max occupancy seen for parallel handlers
-	Evals   int // oracle evaluations
-	epoch   int
+	Sim    *sched.Sim
+	Off    bool // race variant: record nothing
+	mu     sync.Mutex
+	Recs   []Rec
+	Viol   []*Violation
+	occ    []occEntry
+	MaxOcc int // max occupancy seen for parallel handlers
+	Evals  int // oracle evaluations
+	epoch  int
 }
 
 type occEntry struct {
